@@ -334,12 +334,9 @@ def run(ctx):
 
 
 def run_replicator_level(ctx, viol):
-    """(A) real replicator handlers; filled in by the replicator harness when present"""
-    try:
-        from checks import C39_repl
-    except Exception:
-        return {"status": "not-run"}
-    return C39_repl.run(ctx, viol)
+    """(A) real replicator handlers: lib/crdt_repl_util.py"""
+    import crdt_repl_util
+    return crdt_repl_util.run(ctx, viol)
 
 
 THEOREMS = ["C39_any_join_converges", "C39_any_join_is_join_of_sent", "C39_replicator_store_converges", "C39_gcounter_full_state",
